@@ -18,6 +18,7 @@ THEOREMS = ["Mpir.Mpf." + t for t in """
     mpf_sqrt_err mpf_sqrt_neg_zero mpf_sqrt_ui_err
     mpf_sub_err mpf_add_err mpf_sub_exact_if_fits mpf_add_exact_if_fits mpf_sub_ui_err mpf_ui_sub_err
     mpf_add_ui_err mpf_mul_ui_err mpf_set_d_exact_partial mpf_set_d_special wf_preserved
+    init2_spec set_prec_spec set_prec_raw_spec
 """.split()]
 TRUSTED = ["hand-written bit-exact mpf model lean/Mpir/Model/Mpf.lean (limb selection, truncation and normalisation mirror mpf/*.c; "
            "mpn_mul/tdiv_qr/sqrtrem/add/sub/shift are taken at value level) — tied by correspondence on every run",
